@@ -137,6 +137,16 @@ class ClassModel:
                 if pk == 'BinaryOperator' and p.get('opcode') == '+' and '*' in (qtype(p) or ''):
                     other = p['inner'][1] if p['inner'][0] is c else p['inner'][0]
                     A = self.inl.c(other)
+                    # a pointer that is only given a name and then used several times: one access per use
+                    par_, _c = up_through_casts(p)
+                    if par_ is not None and par_.get('kind') == 'VarDecl' and '*' in (qtype(par_) or ''):
+                        uses_ = [y for y in walk(body) if y.get('kind') == 'DeclRefExpr' and (y.get('referencedDecl') or {}).get('id') == par_.get('id')]
+                        writes_ = [y for y in walk(body) if y.get('kind') in ('BinaryOperator', 'CompoundAssignOperator', 'UnaryOperator') and y.get('opcode') in ('=', '+=', '-=', '++', '--') and (ref_decl(y['inner'][0]) or {}).get('id') == par_.get('id')]
+                        if len(uses_) > 1 and not writes_:
+                            for y in uses_:
+                                E, how = self.extent_of(y, f, A, 1)
+                                out.append((y, A, E, how))
+                            continue
                     E, how = self.extent_of(p, f, A)
                     out.append((p, A, E, how))
                     continue
